@@ -1,0 +1,69 @@
+//go:build verif
+
+package formula
+
+import (
+	"context"
+	"reflect"
+)
+
+// Verification hooks (build tag "verif"): read-only wrappers that expose finite tables and
+// internal entry points to the external verification harness. No existing code is changed.
+
+func verifParserAt(k SyntaxKind) *Parser {
+	return &Parser{scanner: &Scanner{token: k}}
+}
+
+// VerifBinaryPrecedence is getBinaryOperatorPrecedence with the current token set to k.
+func VerifBinaryPrecedence(k SyntaxKind) int {
+	return verifParserAt(k).getBinaryOperatorPrecedence()
+}
+
+// VerifIsStartOfExpression is isStartOfExpression with the current token set to k.
+func VerifIsStartOfExpression(k SyntaxKind) bool {
+	return verifParserAt(k).isStartOfExpression()
+}
+
+// VerifIsListElement is isListElement(context) with the current token set to k.
+func VerifIsListElement(context int, k SyntaxKind) bool {
+	return verifParserAt(k).isListElement(context)
+}
+
+// VerifIsListTerminator is isListTerminator(context) with the current token set to k.
+func VerifIsListTerminator(context int, k SyntaxKind) bool {
+	return verifParserAt(k).isListTerminator(context)
+}
+
+// VerifKeywords returns a copy of the keyword table.
+func VerifKeywords() map[string]SyntaxKind {
+	out := map[string]SyntaxKind{}
+	for k, v := range keywords {
+		out[k] = v
+	}
+	return out
+}
+
+// VerifBuiltins returns a copy of the builtin table.
+func VerifBuiltins() map[string]interface{} {
+	out := map[string]interface{}{}
+	innerMap.Range(func(k, v interface{}) bool {
+		out[k.(string)] = v
+		return true
+	})
+	return out
+}
+
+// VerifResolveRaw evaluates without the final number-to-float64 conversion.
+func (r *Runner) VerifResolveRaw(ctx context.Context, v Expression) (interface{}, error) {
+	return r.resolve(ctx, v)
+}
+
+// VerifFormatInput is formatInput.
+func VerifFormatInput(v interface{}) (interface{}, error) {
+	return formatInput(v)
+}
+
+// VerifConvTypeToTarget is convTypeToTarget.
+func VerifConvTypeToTarget(source interface{}, target reflect.Type) (interface{}, error) {
+	return convTypeToTarget(source, target)
+}
